@@ -192,7 +192,7 @@ class AnonymousTarget:
     outputs: list = attrs.field()
     options: dict = attrs.field()
     group: str = attrs.field(default=None)
-    working_dir: str = attrs.field(default=".")
+    working_dir: str = attrs.field(default=None)
     protect: set = attrs.field(factory=set, converter=set)
     spec: str = attrs.field(default="")
 
